@@ -51,7 +51,7 @@ theorem walk_mono (h : Host) (cfg : Cfg) :
           rw [hsm] at hw
           simp only at hw
           have hcont : ∀ s1 : Plan,
-              (if below = true then walk h cfg fuel (.below dest src cfg.mounts) s1 else .ok s1) = .ok st' →
+              (if below = true then walk h cfg fuel (.below dest src n cfg.mounts) s1 else .ok s1) = .ok st' →
               s1.le st' := by
             intro s1 hc
             split at hc
@@ -72,7 +72,7 @@ theorem walk_mono (h : Host) (cfg : Cfg) :
                     rw [hc] at hw
                     exact Plan.le_trans (Plan.le_addFrags _ _) (hcont _ hw)
                 · cases hw
-    | below dest src ms =>
+    | below dest src n ms =>
       cases ms with
       | nil => rw [walk] at hw; cases hw; exact Plan.le_refl _
       | cons e ms =>
